@@ -30,6 +30,8 @@ func main() {
 		cmdReach(os.Args[2:])
 	case "writers":
 		cmdWriters(os.Args[2:])
+	case "locals":
+		cmdLocals(os.Args[2:])
 	default:
 		fmt.Fprintln(os.Stderr, "unknown command", os.Args[1])
 		os.Exit(2)
@@ -257,5 +259,39 @@ func cmdWriters(args []string) {
 		for _, r := range w.cw.roots {
 			fmt.Printf("  root %s [%s]\n", fnKey(r.fn), r.what)
 		}
+	}
+}
+
+// cmdLocals: print, for every function under contract in the repository, the table of its named locals as a
+// "locals" clause (tools/gen_locals.py writes them into the contract files).
+func cmdLocals(args []string) {
+	fs := flag.NewFlagSet("locals", flag.ExitOnError)
+	repo := fs.String("repo", "/repo", "repository root")
+	fs.Parse(args)
+	w, err := loadWorld(*repo, nil)
+	if err != nil {
+		fmt.Fprintln(os.Stderr, err)
+		os.Exit(2)
+	}
+	var keys []string
+	for k, fc := range w.contracts {
+		if fc.Extern || fc.Verified || fc.IfaceMethod {
+			continue
+		}
+		if _, ok := w.fnByKey[k]; ok {
+			keys = append(keys, k)
+		}
+	}
+	sort.Strings(keys)
+	for _, k := range keys {
+		ls := w.currentLocals(w.fnByKey[k])
+		if len(ls) == 0 {
+			continue
+		}
+		var parts []string
+		for _, l := range ls {
+			parts = append(parts, l.Name+":"+l.Type)
+		}
+		fmt.Printf("%s\t%s\n", k, strings.Join(parts, " | "))
 	}
 }
